@@ -257,6 +257,18 @@ def stepOp (op : List String) (implObs : List (List String)) : Option Step :=
       | some a, some b, some c => if a == b && a == c && (a == "t" || a == "f") then "ok" else "fail:where-decision-differs-from-general-engine"
       | _, _, _ => "fail:observation-missing"
     some { obs := [["acc", d], ["acctwin", d], ["again", d]], verdict := v, tags := ["sql"] }
+  | "sqllag" :: rest => do
+    -- the predicate with every column written lag(col), asked about the row after the one that carries the values: the
+    -- decision is the general engine's for the predicate on those values
+    let (astToks, rowToks) := splitSemi rest
+    let (p, compiles, extra) ← astOf astToks
+    if !extra.isEmpty || !compiles then none
+    let row ← rowOf rowToks
+    let d := boolTok (SpecC12.generalDecision p row)
+    let v := match obsTok implObs "acc", obsTok implObs "acctwin" with
+      | some a, some b => if a == d && b == d then "ok" else "fail:where-over-analytic-value-differs-from-general-engine"
+      | _, _ => "fail:observation-missing"
+    some { obs := [["acc", d], ["acctwin", d]], verdict := v, tags := ["sql-over-analytic-value"] }
   | _ => none
 
 def run (c : Case) : CaseOut := Id.run do
